@@ -1,6 +1,7 @@
 package s3afero
 
 import (
+	"bytes"
 	"crypto/md5"
 	"encoding/hex"
 	"errors"
@@ -348,6 +349,15 @@ func (db *SingleBucketBackend) PutObject(
 	if bucketName != db.name {
 		return result, gofakes3.BucketNotFound(bucketName)
 	}
+
+	// Read and validate the complete upload (declared size, Content-MD5) before
+	// the destination is touched: a rejected or interrupted upload must leave
+	// the previously stored object as it was.
+	bts, err := gofakes3.ReadAll(input, size)
+	if err != nil {
+		return result, err
+	}
+	input = bytes.NewReader(bts)
 
 	err = gofakes3.MergeMetadata(db, bucketName, objectName, meta)
 	if err != nil {
